@@ -13,7 +13,7 @@ from ..sim.gen import Gen
 from ..sim.geom import dec, frac
 from ..sim.robot import DecodeError, Robot, parse_number
 from ..sim.world import gen_world, prepare_disk
-from .common import Scratch, Violation, short_hash, transition_key
+from .common import ExecBase, Scratch, Violation, short_hash, transition_key
 
 PROP = "C03"
 LEVEL = "fault_enumeration"
@@ -70,14 +70,11 @@ def check_step_size(record, max_volume, robot):
     return None
 
 
-class Exec:
+class Exec(ExecBase):
     """Result of one execution."""
 
     def __init__(self):
-        self.violation = None
-        self.events = None
-        self.digest = None
-        self.ops = []
+        super().__init__()
         self.terminal_lines = 0
         self.failed = False
         self.exc_type = None
@@ -100,10 +97,8 @@ def execute(world, opsource, fault, want_lines=False):
     max_volume = dec(world["worklist"]["max_volume"])
 
     def viol(clause, idx, op, outcome, detail, facts=None):
-        if res.violation is None:
-            spec = {"format": 1, "property": PROP, "world": world, "ops": list(res.ops), "fault": fault}
-            res.violation = Violation(PROP, clause, spec, idx, op["op"] if op else None, outcome, detail,
-                                      facts=facts or {})
+        spec = {"format": 1, "property": PROP, "world": world, "ops": res.ops, "fault": fault}
+        res.add(Violation(PROP, clause, spec, idx, op["op"] if op else None, outcome, detail, facts=facts or {}))
 
     with Scratch() as scratch:
         target = prepare_disk(world, scratch)
@@ -217,9 +212,8 @@ def execute(world, opsource, fault, want_lines=False):
             res.decode_errors = robot2.decode_errors
         res.events = sess.events + [("file", short_hash(data))]
         res.digest = digest_events(res.events)
-        if res.violation is not None:
-            res.violation.digest = res.digest
-            res.violation.spec["ops"] = list(res.ops)
+        for v in res.violations:
+            v.digest = res.digest
     return res
 
 
@@ -403,8 +397,7 @@ def explore(rng, tier, stats):
     account(stats, world, res, label)
     if len(stats.samples) < 3 and res.failed:
         stats.samples.append({"world": world, "ops": ops, "fault": prog.fault_kind, "outcome": res.exc_type})
-    if res.violation:
-        violations.append(res.violation)
+    violations.extend(res.violations)
     if len(ops) > 1 and res.failed and len(ops) <= prog.n_prefix:
         stats.probes["prefix_op_rejected_unexpectedly"] += 1
     if res.failed and ops:
@@ -434,8 +427,8 @@ def explore(rng, tier, stats):
             account(stats, world, r2, "interrupt.line", fault)
             if r2.fired_at:
                 stats.probes["interrupt_in_" + r2.fired_at[0].replace("/", ".")] += 1
-            if r2.violation:
-                violations.append(r2.violation)
+            if r2.violations:
+                violations.extend(r2.violations)
                 break
         if len(stats.samples) < 3:
             stats.samples.append({"world": world, "ops": ops, "fault": {"kind": "interrupt.line", "k_enumerated": len(ks),
